@@ -831,3 +831,142 @@ async fn d_fast_path_accepts_malformed_set_frame() {
     assert_eq!(esc(&get2), "$1\\r\\nw\\r\\n");
     println!("D RESULT: REPRODUCED (malformed frame with stray 'Z' -> +OK and k=v; generic parser rejects the same bytes)");
 }
+
+// ---------------------------------------------------------------------------
+// B4. mirror image of B3: the flush's manifest read-modify-write is the slow one
+// ---------------------------------------------------------------------------
+
+/// REAL concurrent run of StreamingPersistence::flush() and Compactor::compact().
+///
+/// StreamingPersistence builds its ManifestManager from the same store it uses
+/// for segment objects, so the 300ms simulated latency applies to all of the
+/// flush's get/put calls (SimulatedObjectStore sleeps *before* touching the
+/// inner store; rename has no latency).  Flush timeline (t relative to flush start):
+///   t=300  manifest reload (inner.get)        <- write_segment: load_or_create
+///   t=600  segment object put
+///   t=900  manifest save (put tmp + rename)   <- write_segment: manifest_manager.save
+/// The compactor uses zero-latency stores over the same inner store and runs a
+/// complete compact() at `compact_at_ms`.
+async fn b4_run(compact_at_ms: u64) -> (Manifest, Result<RecoveredState, RecoveryError>, Vec<(String, bool)>) {
+    let prefix = "b4";
+    let inner = InMemoryObjectStore::new();
+    let p0 = write_three_segments(&inner, prefix).await;
+    drop(p0);
+    let mm_plain = ManifestManager::new(inner.clone(), prefix);
+    let before = mm_plain.load().await.unwrap();
+    println!("manifest before: {}", show_manifest(&before));
+
+    let mut slow_cfg = SimulatedStoreConfig::no_faults();
+    slow_cfg.latency_range_us = (300_000, 300_000);
+    let slow: Sim = SimulatedObjectStore::new(inner.clone(), SimulatedRng::new(11), slow_cfg);
+    let mut p: StreamingPersistence<Sim> =
+        StreamingPersistence::new(Arc::new(slow), prefix.to_string(), 1, WriteBufferConfig::test())
+            .await
+            .unwrap();
+
+    let fast_a: Sim = SimulatedObjectStore::new(inner.clone(), SimulatedRng::new(12), SimulatedStoreConfig::no_faults());
+    let fast_b: Sim = SimulatedObjectStore::new(inner.clone(), SimulatedRng::new(13), SimulatedStoreConfig::no_faults());
+    let mut compactor = Compactor::new(
+        Arc::new(fast_a),
+        prefix.to_string(),
+        ManifestManager::new(fast_b, prefix),
+        compaction_cfg(),
+    );
+
+    p.push(mk_delta("new_key", "new_val", 401)).unwrap();
+    let t0 = Instant::now();
+    let mm_probe = mm_plain.clone();
+    let inner_probe = inner.clone();
+    let flush_fut = async {
+        let r = p.flush().await;
+        println!(
+            "[t={:>4}ms] flush() returned {:?}",
+            t0.elapsed().as_millis(),
+            r.as_ref()
+                .map(|f| f.segment.as_ref().map(|s| (s.id, s.key.clone(), s.record_count)))
+                .map_err(|e| e.to_string())
+        );
+        r
+    };
+    let compact_fut = async {
+        tokio::time::sleep(Duration::from_millis(compact_at_ms)).await;
+        println!("[t={:>4}ms] compact() starting", t0.elapsed().as_millis());
+        let r = compactor.compact().await;
+        println!(
+            "[t={:>4}ms] compact() returned {:?}",
+            t0.elapsed().as_millis(),
+            r.as_ref()
+                .map(|c| (
+                    c.segments_removed.iter().map(|s| s.id).collect::<Vec<_>>(),
+                    c.segment_created.as_ref().map(|s| (s.id, s.key.clone(), s.record_count))
+                ))
+                .map_err(|e| e.to_string())
+        );
+        println!(
+            "[t={:>4}ms] manifest right after compact: {}",
+            t0.elapsed().as_millis(),
+            show_manifest(&mm_probe.load().await.unwrap())
+        );
+        let rec = RecoveryManager::new(inner_probe.clone(), prefix, 1);
+        println!(
+            "[t={:>4}ms] recovery right after compact: {}",
+            t0.elapsed().as_millis(),
+            show_recovery(&rec.recover().await)
+        );
+        r
+    };
+    let (fres, cres) = tokio::join!(flush_fut, compact_fut);
+    let fres = fres.expect("flush acknowledged Ok");
+    let cres = cres.expect("compact Ok");
+
+    let final_manifest = mm_plain.load().await.unwrap();
+    println!("manifest final : {}", show_manifest(&final_manifest));
+    let mut objects = Vec::new();
+    for s in &final_manifest.segments {
+        let present = inner.exists(&s.key).await.unwrap();
+        let records = if present {
+            let data = inner.get(&s.key).await.unwrap();
+            SegmentReader::open(&data)
+                .ok()
+                .and_then(|r| r.read_all().ok())
+                .map(|d| d.iter().map(|x| x.key.clone()).collect::<Vec<_>>())
+        } else {
+            None
+        };
+        println!("   listed segment id={} key={} object present={} keys in object={:?}", s.id, s.key, present, records);
+        objects.push((s.key.clone(), present));
+    }
+    let flushed = fres.segment.clone().unwrap();
+    let created = cres.segment_created.clone().unwrap();
+    println!(
+        "flushed segment id/key = {}/{} ; compacted segment id/key = {}/{} (same object key: {})",
+        flushed.id, flushed.key, created.id, created.key, flushed.key == created.key
+    );
+    let rec = RecoveryManager::new(inner.clone(), prefix, 1);
+    let rr = rec.recover().await;
+    println!("recovery final : {}", show_recovery(&rr));
+    (final_manifest, rr, objects)
+}
+
+#[tokio::test]
+async fn b4_flush_resurrects_segments_deleted_by_concurrent_compaction() {
+    println!("\n===== B4 (compact between flush's manifest reload and flush's segment put, t=450ms) =====");
+    let (m, rr, objects) = b4_run(450).await;
+    let ids: Vec<u64> = m.segments.iter().map(|s| s.id).collect();
+    assert_eq!(ids, vec![0, 1, 2, 3], "stale manifest + new segment saved by flush");
+    for (k, present) in &objects[..3] {
+        assert!(!present, "{} was deleted by compaction but is listed again", k);
+    }
+    assert!(rr.is_err(), "recovery fails on a re-listed deleted segment");
+    println!("B4 RESULT (t=450): REPRODUCED (final manifest re-lists deleted segments 0,1,2; recovery = {})", show_recovery(&rr));
+
+    println!("\n===== B4 variant (compact between flush's segment put and flush's manifest save, t=750ms) =====");
+    let (m, rr, objects) = b4_run(750).await;
+    let ids: Vec<u64> = m.segments.iter().map(|s| s.id).collect();
+    assert_eq!(ids, vec![0, 1, 2, 3]);
+    for (k, present) in &objects[..3] {
+        assert!(!present, "{} was deleted by compaction but is listed again", k);
+    }
+    assert!(rr.is_err());
+    println!("B4 RESULT (t=750): REPRODUCED (final manifest re-lists deleted segments 0,1,2; recovery = {})", show_recovery(&rr));
+}
